@@ -129,6 +129,10 @@ def cases(chk):
     for _ in range(chk.scale(60, 1500)):
         nt = r.choice([2, 2, 3])
         yield "concurrent", {"frames": [[r.choice(["ok", "ok", "fail"]) for _i in range(r.randint(1, 3))] for _t in range(nt)], "seed": r.randrange(1 << 30)}
+    # the network layer with each real dispatcher against a local TCP peer: a frame whose handling raises, then a reconnect
+    for disp, exc in ([("socket", "RuntimeError"), ("socket", "KeyError"), ("asyncore", "RuntimeError")] if chk.quick() else
+                      [(d_, e_) for d_ in ("socket", "asyncore") for e_ in ("RuntimeError", "ValueError", "KeyError", "AttributeError")]):
+        yield "dispatchers", {"dispatcher": disp, "exc": exc}
     # the segment layer alone, with a top that raises for chosen frames: per call, the real layer against Model/Segments.lean's recvF
     yield "segfail", {"frames": ["07", "0809", "05"], "bad": [1], "cuts": [5], "extra": 1, "seed": 1}
     for _ in range(chk.scale(150, 4000)):
@@ -155,7 +159,7 @@ def cases(chk):
 
 
 def nontrivial(stream, case):
-    if stream in ("concurrent", "coalesced", "segfail"):
+    if stream in ("concurrent", "coalesced", "segfail", "dispatchers"):
         return repr(case)
     return (tuple(case["ops"]), tuple(case["threads"]))
 
@@ -382,7 +386,112 @@ def run_segfail(chk, case):
     return fails
 
 
+def run_dispatchers(chk, case):
+    """the real YowNetworkLayer with the real socket / asyncore dispatcher, connected to a TCP peer on the loopback interface.  The peer's
+    first connection delivers data whose handling above the network layer raises (not an OSError); the failure must end in the connection
+    being reported down, and a second connect on the same stack must work: its data arrives."""
+    import socket
+    import threading
+    import time
+    from core import InfraError
+    from yowsup.layers import YowLayer, YowLayerEvent
+    from yowsup.layers.network import YowNetworkLayer
+    from yowsup.stacks import YowStack
+    import builtins
+    fails = []
+    exc = getattr(builtins, case["exc"])
+    try:
+        srv = socket.socket()
+        srv.bind(("127.0.0.1", 0))
+        srv.listen(4)
+    except OSError as e:
+        raise InfraError("no loopback TCP in this sandbox: %s" % e)
+    srv.settimeout(6)
+    port = srv.getsockname()[1]
+    peer_conns = []
+
+    def server():
+        for i in range(2):
+            try:
+                c, _a = srv.accept()
+            except OSError:
+                return
+            peer_conns.append(c)
+            try:
+                c.sendall(b"bad!" if i == 0 else b"good")
+            except OSError:
+                pass
+    st = threading.Thread(target=server, daemon=True)
+    st.start()
+
+    class Top(YowLayer):
+        def __init__(self):
+            super(Top, self).__init__()
+            self.got, self.events = [], []
+
+        def receive(self, data):
+            self.got.append(bytes(data))
+            if bytes(data).startswith(b"bad"):
+                raise exc("the handler of this frame fails")
+
+        def send(self, data):
+            self.toLower(data)
+
+        def onEvent(self, ev):
+            self.events.append(ev.getName().split(".")[-1])
+            return False
+    top = Top()
+    disp = YowNetworkLayer.DISPATCHER_SOCKET if case["dispatcher"] == "socket" else YowNetworkLayer.DISPATCHER_ASYNCORE
+    stack = YowStack((YowNetworkLayer, top), reversed=False)
+    stack.setProp(YowNetworkLayer.PROP_ENDPOINT, ("127.0.0.1", port))        # (the stack's constructor sets the default endpoint itself)
+    stack.setProp(YowNetworkLayer.PROP_DISPATCHER, disp)
+    net = stack.getLayer(0)
+    threads = []
+
+    def connect():
+        t = threading.Thread(target=lambda: stack.broadcastEvent(YowLayerEvent(YowNetworkLayer.EVENT_STATE_CONNECT)), daemon=True)
+        t.start()
+        threads.append(t)
+
+    def wait(cond, secs):
+        end = time.time() + secs
+        while time.time() < end:
+            if cond():
+                return True
+            time.sleep(0.01)
+        return cond()
+    ctx = "%s dispatcher, handler raises %s" % (case["dispatcher"], case["exc"])
+    chk.hit("dispatchers:" + case["dispatcher"])
+    try:
+        connect()
+        if not wait(lambda: top.got, 5):
+            fails.append(oracle("C12:dispatcher-no-data", "%s: the first connection's data never reached the layer above the network layer (events %s)" % (ctx, top.events)))
+            return fails
+        if not wait(lambda: "disconnected" in top.events and net.state == YowNetworkLayer.STATE_DISCONNECTED, 4):
+            fails.append(oracle("C12:upward-failure-wedges-network-layer", "%s: after the failing frame the connection was not reported down: events %s, network layer state %s "
+                                "(0 = disconnected)" % (ctx, top.events, net.state)))
+            return fails
+        n_ev = len(top.events)
+        connect()
+        if not wait(lambda: b"good" in top.got, 5):
+            fails.append(oracle("C12:no-reconnect-after-upward-failure", "%s: a second connect on the same stack does not deliver the peer's data: events since %s, state %s, "
+                                "peer saw %d connection(s)" % (ctx, top.events[n_ev:], net.state, len(peer_conns))))
+    finally:
+        for c in peer_conns:
+            try:
+                c.close()
+            except OSError:
+                pass
+        srv.close()
+        wait(lambda: net.state == YowNetworkLayer.STATE_DISCONNECTED, 3)
+        for t in threads:
+            t.join(2)
+    return fails
+
+
 def run_case(chk, stream, case):
+    if stream == "dispatchers":
+        return run_dispatchers(chk, case)
     if stream == "concurrent":
         return run_concurrent(chk, case)
     if stream == "coalesced":
@@ -527,7 +636,7 @@ def run_case(chk, stream, case):
 
 
 def shrink(stream, case):
-    if stream == "concurrent":
+    if stream in ("concurrent", "dispatchers"):
         return
     if stream == "segfail":
         fr, bad, cuts = case["frames"], case["bad"], case["cuts"]
